@@ -485,6 +485,223 @@ func (g *gen) histDS(kind string) {
 	os.RemoveAll(dir)
 }
 
+// ---------------------------------------------------------------- mixed histories
+
+type mixOpts struct {
+	kinds     []string // structure kinds used
+	pMulti    int      // percent of transactions with several operations
+	pInTxRead int      // percent chance of a read after each operation inside a write tx
+	pNoCommit int      // percent of transactions that end without a successful commit
+	pMerge    int      // percent chance of a Merge after a transaction
+	pROMut    int      // percent chance that a read-only tx calls mutating APIs
+	faults    bool     // inject I/O faults into commits
+}
+
+func (g *gen) mutOne(t *hx.Tx, kinds []string) {
+	switch pick(g.r, kinds) {
+	case "list":
+		g.lsMut(t)
+	case "set":
+		g.stMut(t)
+	case "zset":
+		g.zMut(t)
+	default:
+		g.kvWrite(t)
+	}
+}
+
+func (g *gen) readSome(t *hx.Tx, kinds []string, full bool) {
+	for _, k := range kinds {
+		if !full && g.r.Intn(2) == 0 {
+			continue
+		}
+		switch k {
+		case "list":
+			g.lsReads(t, full)
+		case "set":
+			g.stReads(t, full)
+		case "zset":
+			g.zReads(t, full)
+		default:
+			g.kvReads(t, pick(g.r, g.u.KvBuckets), full)
+		}
+	}
+}
+
+// afterFinish calls APIs on a finished transaction: each must return an error.
+func (g *gen) afterFinish(t *hx.Tx) {
+	t.Put("b1", []byte("a"), []byte("v"), 0)
+	t.Get("b1", []byte("a"))
+	if len(g.u.LsBuckets) > 0 {
+		t.RPush("l1", "l1", []byte("a"))
+		t.LPop("l1", "l1")
+		t.LRange("l1", "l1", 0, -1)
+		t.SAdd("s1", "s1", []byte("a"))
+		t.SMembers("s1", "s1")
+		t.ZAdd("z1", []byte("a"), 1, []byte("v"))
+		t.ZCard("z1")
+	}
+	t.GetAll("b1")
+	t.Delete("b1", []byte("a"))
+	if g.r.Intn(2) == 0 {
+		t.Commit(nil)
+	} else {
+		t.Rollback()
+	}
+}
+
+// histMixed: one history over several structures with transactions that
+// commit, roll back, fail, or are read-only.
+func (g *gen) histMixed(o mixOpts) {
+	hasDS := false
+	for _, k := range o.kinds {
+		if k != "kv" {
+			hasDS = true
+		}
+	}
+	mode := nutsdb.HintKeyValAndRAMIdxMode
+	if !hasDS {
+		mode = modeOf(g.c.Mode, g.r)
+	}
+	g.u = dsUniverse(true)
+	if !hasDS {
+		g.u = &hx.Universe{KvBuckets: []string{"b1", "b2"}}
+	}
+	seg := int64(192 + g.r.Intn(4)*128)
+	dir := fmt.Sprintf("%s/db-%d", g.c.Tmp, g.hist)
+	os.RemoveAll(dir)
+	obs := hx.NewFSObs(dir)
+	defer obs.Uninstall()
+	obs.KeepData = false
+	g.start(mode, rwOf(g.c.RW, g.r), seg)
+	big := make([]byte, seg) // an entry larger than the segment
+	for i := range big {
+		big[i] = 'x'
+	}
+	for i := 0; i < g.c.Steps; i++ {
+		nops := 1
+		if g.r.Intn(100) < o.pMulti {
+			nops = 2 + g.r.Intn(4)
+		}
+		ro := g.r.Intn(6) == 0
+		t, err := g.s.Begin(!ro)
+		if err != nil {
+			break
+		}
+		if ro {
+			g.readSome(t, o.kinds, false)
+			if g.r.Intn(100) < o.pROMut {
+				for j := 0; j < 3; j++ {
+					g.mutOne(t, o.kinds)
+				}
+				g.readSome(t, o.kinds, false)
+			}
+			if g.r.Intn(2) == 0 {
+				t.Commit(nil)
+			} else {
+				t.Rollback()
+			}
+		} else {
+			fate := "commit"
+			if g.r.Intn(100) < o.pNoCommit {
+				fate = pick(g.r, []string{"rollback", "oversize", "fault", "fault", "syncfault"})
+				if !o.faults && (fate == "fault" || fate == "syncfault") {
+					fate = "rollback"
+				}
+			}
+			bigAt := -1
+			if fate == "oversize" {
+				bigAt = g.r.Intn(nops)
+			}
+			for j := 0; j < nops; j++ {
+				if j == bigAt {
+					t.Put(pick(g.r, g.u.KvBuckets), []byte(pick(g.r, kvKeys)), big, 0)
+				} else {
+					g.mutOne(t, o.kinds)
+				}
+				if g.r.Intn(100) < o.pInTxRead {
+					g.readSome(t, o.kinds, false)
+				}
+			}
+			switch fate {
+			case "rollback":
+				t.Rollback()
+			case "fault", "syncfault":
+				// fail the k-th file mutation of this commit (a write, possibly
+				// after a partial write; or a sync after a completed write)
+				k := g.r.Intn(2*nops + 2)
+				partial := -1
+				if g.r.Intn(2) == 0 {
+					partial = 1 + g.r.Intn(60)
+				}
+				cnt := 0
+				obs.Fault = func(m *hx.Mut) (bool, int) {
+					if fate == "syncfault" {
+						if m.Op != "sync" {
+							return false, 0
+						}
+					} else if m.Op == "sync" {
+						return false, 0
+					}
+					cnt++
+					if cnt-1 == k {
+						return true, partial
+					}
+					return false, 0
+				}
+				obs.ResetCounters()
+				t.Commit(func() int { return obs.DatWrites })
+				obs.Fault = nil
+			default:
+				obs.ResetCounters()
+				t.Commit(func() int { return obs.DatWrites })
+			}
+		}
+		if g.s.Panics > 0 {
+			return // the history is not continued after a panic
+		}
+		if g.r.Intn(8) == 0 {
+			g.afterFinish(t)
+		}
+		g.view(func(t *hx.Tx) { g.readSome(t, o.kinds, g.r.Intn(6) == 0) })
+		if g.r.Intn(3) == 0 {
+			g.s.Obs()
+		}
+		if g.r.Intn(6) == 0 {
+			g.s.Shadow(dir + "-shadow")
+		}
+		if g.r.Intn(100) < o.pMerge {
+			g.s.Obs()
+			g.s.Merge()
+			g.s.Obs()
+			g.s.Shadow(dir + "-shadow")
+			if g.s.Panics > 0 {
+				return
+			}
+		}
+		if g.r.Intn(12) == 0 {
+			g.s.Close()
+			if g.s.Open() != nil {
+				return
+			}
+			g.s.Obs()
+		}
+	}
+	g.s.Obs()
+	g.s.Shadow(dir + "-shadow")
+	g.s.Close()
+	if g.s.Open() != nil {
+		return
+	}
+	g.s.Obs()
+	g.s.Close()
+	if err := obs.Verify(); err != nil {
+		fmt.Fprintln(os.Stderr, "harness: file observer out of sync with the directory:", err)
+		os.Exit(2)
+	}
+	os.RemoveAll(dir)
+}
+
 func main() {
 	var c cfg
 	flag.StringVar(&c.Family, "family", "kv", "driver family")
@@ -510,8 +727,22 @@ func main() {
 		switch c.Family {
 		case "kv":
 			g.histKV()
-		case "list", "set", "zset", "mixed":
+		case "list", "set", "zset":
 			g.histDS(c.Family)
+		case "mixed": // C08: every structure, multi-operation transactions, reopen
+			g.histMixed(mixOpts{kinds: []string{"kv", "list", "set", "zset"}, pMulti: 50, pNoCommit: 10, pROMut: 0})
+		case "mixedkv": // C08 in the other index modes
+			g.histMixed(mixOpts{kinds: []string{"kv"}, pMulti: 50, pNoCommit: 10})
+		case "intx": // C13: reads and pops of structures the transaction already modified
+			g.histMixed(mixOpts{kinds: []string{"kv", "list", "set", "zset"}, pMulti: 90, pInTxRead: 60})
+		case "fail": // C12: transactions that end without commit
+			g.histMixed(mixOpts{kinds: []string{"kv", "list", "set", "zset"}, pMulti: 60, pNoCommit: 45, pROMut: 60, faults: true})
+		case "failkv":
+			g.histMixed(mixOpts{kinds: []string{"kv"}, pMulti: 60, pNoCommit: 45, pROMut: 60, faults: true})
+		case "merge": // C15
+			g.histMixed(mixOpts{kinds: []string{"kv", "list", "set", "zset"}, pMulti: 40, pNoCommit: 10, pMerge: 12})
+		case "mergekv":
+			g.histMixed(mixOpts{kinds: []string{"kv"}, pMulti: 40, pNoCommit: 10, pMerge: 12})
 		default:
 			fmt.Fprintln(os.Stderr, "harness: unknown family", c.Family)
 			os.Exit(2)
